@@ -17,6 +17,7 @@ CONSTANTS
   CanonKinds = FALSE
   PoolAny = FALSE
   MaxPause = 0
+  MaxDown = 0
   Debug = FALSE
 POSTCONDITION Accepted
 CHECK_DEADLOCK FALSE
